@@ -7,6 +7,7 @@ import (
 	"os"
 	"regexp"
 	"runtime/pprof"
+	"sort"
 	"strings"
 	"syscall"
 	"time"
@@ -172,8 +173,20 @@ func classify(res *Result) {
 		}
 		res.Class = "leak:" + strings.Join(s, "+")
 		if res.rogue {
-			// the database ignored the window / order the statement asked for: its own explanation
-			res.Class = "leak_on_disobedient_rows:" + strings.Join(s, "+")
+			// the database ignored the window / order the statement asked for: its own explanation.  These classes
+			// name the PACKAGE of the leaked goroutines only: the explanation is the cause (a stage gave up on an
+			// impossible row), and a class that is listed as known must survive a renaming of the functions
+			pk := map[string]bool{}
+			var pks []string
+			for _, fn := range s {
+				p, _, _ := strings.Cut(fn, ".")
+				if !pk[p] {
+					pk[p] = true
+					pks = append(pks, p)
+				}
+			}
+			sort.Strings(pks)
+			res.Class = "leak_on_disobedient_rows:" + strings.Join(pks, "+")
 		}
 		res.What = fmt.Sprintf("%d goroutine(s) started for the request still alive after the response: %s", len(res.Out.Leaked), strings.Join(res.Out.Leaked, ", "))
 	}
